@@ -64,6 +64,9 @@ def chosen_cases(tb, rnd, tier):
     add(comp=['zlib@openssh.com', 'none'])
     add(comp=['zlib', 'zlib@openssh.com'], role='client')
     add(comp=['none', 'foo-comp'])
+    add(comp=['zlib@openssh.com', 'zlib', 'none'])          # not in alphabetical order: shown as sent
+    add(comp=['zlib', 'none', 'zlib'], role='client')       # a method named twice: shown twice
+    add(comp=['zlib', 'zlib@openssh.com', 'zlib'])
     # host-key types the server advertises but never presents (it closes the probe connection): still advertised, still listed
     c = add(key=['rsa-sha2-512', 'rsa-sha2-256', 'ssh-ed25519'])
     c['withheld'] = ['rsa-sha2-512', 'rsa-sha2-256', 'ssh-rsa']
